@@ -47,6 +47,11 @@ def dispOf : List Info → Option Disp
 def disposeAll (infos : List Info) : List Disp :=
   (slices infos 0 (chunkInds 0 infos)).filterMap dispOf
 
+/-- `dispose_all` from the start: `sort_by_key(delivery_id)` (a stable sort by the plain order of the ids),
+    `retain` of what is still in the unsettled map, then the cut into runs -/
+def disposeAllFull (infos : List Info) (unsettled : Info → Bool) : List Disp :=
+  disposeAll ((infos.mergeSort (fun a b => decide (a.id ≤ b.id))).filter unsettled)
+
 /-- the ids a disposition names (first ..= last, ascending, no wrap inside a run) -/
 def named (d : Disp) : List Nat := List.range' d.first (d.last - d.first + 1)
 
